@@ -155,6 +155,22 @@ impl<'a> Gen<'a> {
                 let b = if self.w.chance(1, 2) { T::V(*self.w.pick(&self.vars)) } else { T::I(self.w.range(0, 1)) };
                 gs.push(G::Neq(a, b));
             }
+            if self.w.chance(1, 3) {
+                // CLP(Z) constraints that are still suspended when the branches start: one
+                // constraint object shared by every branch's store
+                let n = 1 + self.w.below(2);
+                for _ in 0..n {
+                    let z = |g: &mut Self| -> T {
+                        if g.w.chance(3, 4) {
+                            T::V(*g.w.pick(&g.vars))
+                        } else {
+                            T::I(g.w.range(0, 2))
+                        }
+                    };
+                    let (a, b, c) = (z(self), z(self), z(self));
+                    gs.push(if self.w.chance(1, 2) { G::Plusz(a, b, c) } else { G::Timesz(a, b, c) });
+                }
+            }
         }
         gs
     }
